@@ -29,6 +29,7 @@ struct G<'a> {
     allocs: Vec<AllocSh>,
     mail: Vec<Vec<Sh>>,
     copy_family: bool,
+    same_pq: bool,
     zst_e: bool,
     max_len: usize,
     cfg_a: bool,
@@ -96,7 +97,7 @@ pub const PROFILES: &[Profile] = &[
     },
     Profile {
         name: "C02",
-        weights: &[(Clone, 22), (Convert, 8), (Raw, 4), (Union, 3), (Thin, 4), (Inspect, 14), (Drop, 26), (Mail, 12), (Move, 1), (CreateSized, 2), (CreateSlice, 1)],
+        weights: &[(Clone, 22), (Convert, 8), (Raw, 4), (Union, 3), (Thin, 4), (Inspect, 14), (Drop, 26), (Mail, 12), (Move, 1), (CreateSized, 2), (CreateSlice, 1), (Unwrap, 4), (Uniq, 3), (Cow, 3)],
         threads: &[(2, 60), (3, 30), (4, 10)],
         setup_ops: (3, 10),
         par_ops: (2, 10),
@@ -206,7 +207,7 @@ pub const PROFILES: &[Profile] = &[
     },
     Profile {
         name: "C12",
-        weights: &[(Union, 30), (Clone, 14), (Inspect, 10), (Cmp, 8), (Convert, 6), (Drop, 16), (CreateSized, 14), (Raw, 2)],
+        weights: &[(Union, 34), (Clone, 16), (Inspect, 10), (Cmp, 10), (Convert, 6), (Drop, 14), (CreateSized, 12), (Raw, 2)],
         threads: &[(1, 100)],
         setup_ops: (5, 32),
         par_ops: (0, 0),
@@ -490,6 +491,10 @@ impl<'a> G<'a> {
                 let sh = self.slots[s].unwrap();
                 match sh.kind {
                     K::ArcP => {
+                        if self.same_pq && self.rng.pct(40) {
+                            self.set(s, K::UnionQ, sh.alloc);
+                            return op(OpCode::ToUnionCross, s, 0, 0);
+                        }
                         self.set(s, K::UnionP, sh.alloc);
                         op(OpCode::ToUnion, s, 0, 0)
                     }
@@ -755,6 +760,7 @@ pub fn generate(prof: &Profile, seed: u64, cfg_a: bool) -> Program {
     let _ = NFAMILIES;
     let nthreads = weighted(&mut rng, prof.threads);
     let copy_family = matches!(family, 7 | 8 | 9 | 10);
+    let same_pq = matches!(family, 1 | 4 | 7);
     let zst_e = family == 5;
     // swarm: disable a random subset of the categories (never Drop / CreateSized)
     let mut weights: Vec<(Cat, u32)> = prof.weights.to_vec();
@@ -777,7 +783,7 @@ pub fn generate(prof: &Profile, seed: u64, cfg_a: bool) -> Program {
     let switch_pct = *rng.pick(&[5u32, 15, 30, 50, 80]);
     let pct_depth = *rng.pick(&[0u32, 0, 0, 1, 2, 3]);
     let fault = if prof.fault_pct > 0 && rng.pct(prof.fault_pct) {
-        let cb = *rng.pick(&[Cb::IterNext, Cb::IterLen, Cb::IterHint, Cb::Clone, Cb::Cmp, Cb::Hash, Cb::Fmt, Cb::Closure, Cb::Clone, Cb::Closure]);
+        let cb = *rng.pick(&[Cb::IterNext, Cb::IterLen, Cb::IterHint, Cb::Clone, Cb::Cmp, Cb::Hash, Cb::Fmt, Cb::Closure, Cb::Clone, Cb::Closure, Cb::Drop, Cb::Drop]);
         Some((cb, 1 + rng.below(6) as u32))
     } else {
         None
@@ -789,6 +795,7 @@ pub fn generate(prof: &Profile, seed: u64, cfg_a: bool) -> Program {
         allocs: Vec::new(),
         mail: vec![Vec::new(); NMAIL],
         copy_family,
+        same_pq,
         zst_e,
         max_len: prof.max_len,
         cfg_a,
